@@ -140,6 +140,12 @@ func (w *c08World) checkAll(what string) {
 		w.expectList("C08", fmt.Sprintf("snapshotByEpoch(%d) at epoch %d with count %d after %s", e, m.cur, m.n, what), w.call("snapshotByEpoch", e), want)
 		w.expectList("C08", fmt.Sprintf("listNodes(%d) at epoch %d with count %d after %s", e, m.cur, m.n, what), w.call("listNodes", e), structured(e))
 	}
+	// epochs a power of 256 away from the current one (their 4-byte keys share low bytes with it): future epochs, nothing stored
+	for _, far := range []int{1 << 8, 1 << 16, 1 << 24} {
+		e := m.cur + far
+		w.expectList("C08", fmt.Sprintf("snapshotByEpoch(%d) at epoch %d with count %d after %s", e, m.cur, m.n, what), w.call("snapshotByEpoch", e), nil)
+		w.expectList("C08", fmt.Sprintf("listNodes(%d) at epoch %d with count %d after %s", e, m.cur, m.n, what), w.call("listNodes", e), nil)
+	}
 	if m.cur >= 1 && m.n >= 1 {
 		w.expectList("C08", "netmap() after "+what, w.call("netmap"), legacy(m.cur))
 	}
